@@ -594,6 +594,10 @@ func (tree *MutableTree) enableFastStorageAndCommitIfNotEnabled() (bool, error) 
 			return false, err
 		}
 	}
+	if err := fastItr.Error(); err != nil {
+		// stale fast nodes may be left: do not label the index as valid
+		return false, err
+	}
 
 	if err := tree.enableFastStorageAndCommit(); err != nil {
 		tree.ndb.storageVersion = defaultStorageVersionValue
